@@ -2103,6 +2103,9 @@ impl Connection {
             _ => unreachable!("first packet must be delivered in Handshake state"),
         }
 
+        // Remember the packet number so that a duplicate of this packet, which would be routed to
+        // the connection like any later Initial packet, is recognized and discarded
+        self.spaces[SpaceId::Initial].dedup.insert(packet_number);
         self.on_packet_authenticated(
             now,
             SpaceId::Initial,
